@@ -235,6 +235,31 @@ def rooms_1x3(shape, layout, rng):
     rooms_contract(shape, rng)
 
 
+@contract(target=RS + 'rooms', args={'shape': 'Shape', 'layout': ('const', (2, 1)), 'rng': 'Rng'}, kwonly=['rng'],
+          props=['C02', 'C13', 'C08'])
+def rooms_2x1(shape, layout, rng):
+    rooms_contract(shape, rng)
+
+
+# the layout of the shipped nine-rooms configurations
+@contract(target=RS + 'rooms', args={'shape': 'Shape', 'layout': ('const', (3, 3)), 'rng': 'Rng'}, kwonly=['rng'],
+          props=['C02', 'C13', 'C08'])
+def rooms_3x3(shape, layout, rng):
+    rooms_contract(shape, rng)
+
+
+@contract(target=RS + 'rooms', args={'shape': 'Shape', 'layout': ('const', (3, 2)), 'rng': 'Rng'}, kwonly=['rng'],
+          props=['C02', 'C13', 'C08'])
+def rooms_3x2(shape, layout, rng):
+    rooms_contract(shape, rng)
+
+
+@contract(target=RS + 'rooms', args={'shape': 'Shape', 'layout': ('const', (1, 4)), 'rng': 'Rng'}, kwonly=['rng'],
+          props=['C02', 'C13', 'C08'])
+def rooms_1x4(shape, layout, rng):
+    rooms_contract(shape, rng)
+
+
 # ---------------------------------------------------------------------------------------------------
 # memory_rooms for fixed small layouts and counts (symbolic shape, symbolic colour set, every outcome)
 def memory_rooms_contract(shape, colors, num_beacons, num_exits, rng):
@@ -279,6 +304,21 @@ def memory_rooms_1x1(shape, layout, colors, num_beacons, num_exits, rng):
           args={'shape': 'Shape', 'layout': ('const', (2, 2)), 'colors': ('distinct-set', 'Color', 3),
                 'num_beacons': ('const', 2), 'num_exits': ('const', 3), 'rng': 'Rng'}, kwonly=['rng'], props=['C13', 'C02', 'C08'])
 def memory_rooms_2x2(shape, layout, colors, num_beacons, num_exits, rng):
+    memory_rooms_contract(shape, colors, num_beacons, num_exits, rng)
+
+
+# the parameter sets of the shipped memory configurations (four rooms / nine rooms: 4 colours, 1 beacon, 2 exits)
+@contract(target=RS + 'memory_rooms',
+          args={'shape': 'Shape', 'layout': ('const', (2, 2)), 'colors': ('distinct-set', 'Color', 4),
+                'num_beacons': ('const', 1), 'num_exits': ('const', 2), 'rng': 'Rng'}, kwonly=['rng'], props=['C13', 'C02', 'C08'])
+def memory_rooms_shipped_2x2(shape, layout, colors, num_beacons, num_exits, rng):
+    memory_rooms_contract(shape, colors, num_beacons, num_exits, rng)
+
+
+@contract(target=RS + 'memory_rooms',
+          args={'shape': 'Shape', 'layout': ('const', (3, 3)), 'colors': ('distinct-set', 'Color', 4),
+                'num_beacons': ('const', 1), 'num_exits': ('const', 2), 'rng': 'Rng'}, kwonly=['rng'], props=['C13', 'C02', 'C08'])
+def memory_rooms_shipped_3x3(shape, layout, colors, num_beacons, num_exits, rng):
     memory_rooms_contract(shape, colors, num_beacons, num_exits, rng)
 
 
